@@ -69,6 +69,26 @@ def reach_templates():
     return _REACH
 
 
+_PAIR = None
+
+
+def pair_templates():
+    """Same operation from two threads at once, for every catalogued name."""
+    global _PAIR
+    if _PAIR is None:
+        _PAIR = [("pair", kind, name, d, be) for be in ("obj", "np", "ak") for kind, name, mind in _names()
+                 for d in (2, 3, 4) if d >= _mindim(kind, name, mind)]
+    return _PAIR
+
+
+def _mindim(kind, name, mind):
+    if kind == "mprop":
+        return max(mind, {n: d for d in (2, 3, 4) for n in G.MOMPROPS[d]}[name])
+    if kind == "prop":
+        return max(mind, {n: d for d in (2, 3, 4) for n in G.PROPS[d]}[name])
+    return mind
+
+
 def _unused_templates():
     if True:
         pass
@@ -81,6 +101,9 @@ def gen_case(seed, tier, focus):
     if idx >= 90000:
         tpl = reach_templates()
         t = tpl[(idx - 90000) % len(tpl)]
+    elif idx >= 80000:
+        tpl = pair_templates()
+        t = tpl[(idx - 80000) % len(tpl)]
     else:
         tpl = templates()
         t = tpl[idx % len(tpl)]
@@ -88,7 +111,7 @@ def gen_case(seed, tier, focus):
     g = G.WorldGen(rng.randrange(1 << 30), tier, focus or "C20")
     g.rng = rng
     fn = {"raise": _raise_case, "rendezvous": _rendezvous_case, "register": _register_case, "mutators": _mutator_case,
-          "reach": _reach_case}[t[0]]
+          "reach": _reach_case, "pair": _pair_case}[t[0]]
     w = fn(g, rng, t)
     w["seed"] = seed
     w["directed"] = list(map(str, t))
@@ -353,3 +376,37 @@ def _reach_case(g, rng, t):
     add({"f": "copy.deepcopy", "a": [P(me)]})
     w = _finish(g, k, [ops_], [], {"kind": "serial", "seed": 0}, niso=0, serial_only=True, reach=True)
     return w
+
+
+def _pair_case(g, rng, t):
+    """Two threads run the same operation - thread 0 on momentum operands, thread 1 on generic ones, in
+    seeded stored systems - switching at every shared-state site (with-bodies, global / class-attribute
+    stores, flag reads, hot functions)."""
+    _, kind, name, dim, be = t
+    k = _base_knobs(g, 2)
+    k["awk_mode"] = rng.choice(("unregistered", "registered_before"))
+    sysl = [s_ for s_ in C.SYSTEMS if C.dim_of(s_) == dim]
+    selfs = []
+    partners = [dict(), dict()]
+    for q in range(2):
+        mom = True if kind == "mprop" else (q == 0)
+        selfs.append(_mk_like(g, k, be, sysl[rng.randrange(len(sysl))], mom))
+    for d in (2, 3, 4):      # partners for binary methods, one per flavor
+        for q in range(2):
+            s2 = [s_ for s_ in C.SYSTEMS if C.dim_of(s_) == d]
+            partners[q][d] = _mk_like(g, k, be if rng.random() < 0.7 else "obj", s2[rng.randrange(len(s2))], q == 0)
+    progs = []
+    for q in range(2):
+        prog = []
+        for which in ([q] if rng.random() < 0.5 else [q, 1 - q]):
+            op = _call_for(g, selfs[which], kind, name)
+            for pos, a_ in enumerate(op.get("a", [])[1:], start=1):
+                if isinstance(a_, dict) and a_.get("$") == "p":
+                    want = g.desc[a_["v"]].dim
+                    op["a"][pos] = P(partners[which][want])
+            op["cat"] = "pair"
+            prog.append(op)
+        progs.append(prog)
+    sched = {"kind": "sites", "seed": rng.randrange(1 << 30), "p": rng.choice((1.0, 1.0, 0.5)), "which": ["with", "store", "flag", "func"],
+             "domain": "line", "observe": 2}
+    return _finish(g, k, progs, [], sched, niso=0)
